@@ -404,13 +404,23 @@ End Interference.
 
 (* ================================================================== *)
 (** * 3. Inventory of global write sites (generated) *)
-Record gwrite := GW { gw_file : string; gw_line : N; gw_var : string; gw_kind : string; gw_detail : string }.
-Record gallow := GA { ga_var : string; ga_kind : string; ga_detail : string }.
+Record gwrite := GW { gw_file : string; gw_line : N; gw_var : string; gw_kind : string;
+                      gw_detail : string; gw_func : string }.
+(* an allow-list line; a non-empty ga_need_var restricts it to sites whose
+   function also contains a site (need_var, need_kind, need_detail), e.g. the
+   mutex Lock that justifies a store *)
+Record gallow := GA { ga_var : string; ga_kind : string; ga_detail : string;
+                      ga_need_var : string; ga_need_kind : string; ga_need_detail : string }.
 
 Definition allow_matches (a : gallow) (w : gwrite) : bool :=
   String.eqb (ga_var a) (gw_var w) && String.eqb (ga_kind a) (gw_kind w) &&
   (String.eqb (ga_detail a) "*" || String.eqb (ga_detail a) (gw_detail w)).
-Definition is_allowed (allowed : list gallow) (w : gwrite) : bool :=
-  existsb (fun a => allow_matches a w) allowed.
+Definition need_ok (all : list gwrite) (a : gallow) (w : gwrite) : bool :=
+  String.eqb (ga_need_var a) "" ||
+  existsb (fun o => String.eqb (gw_file o) (gw_file w) && String.eqb (gw_func o) (gw_func w) &&
+                    String.eqb (gw_var o) (ga_need_var a) && String.eqb (gw_kind o) (ga_need_kind a) &&
+                    String.eqb (gw_detail o) (ga_need_detail a)) all.
+Definition is_allowed (allowed : list gallow) (all : list gwrite) (w : gwrite) : bool :=
+  existsb (fun a => allow_matches a w && need_ok all a w) allowed.
 Definition not_allowed (allowed : list gallow) (ws : list gwrite) : list gwrite :=
-  filter (fun w => negb (is_allowed allowed w)) ws.
+  filter (fun w => negb (is_allowed allowed ws w)) ws.
